@@ -180,6 +180,38 @@ fn table_cases(cmds: &[Cmd], thorough: bool, seed: u64, out: &mut Vec<RCase>) {
     }
 }
 
+/// coordinates on and around the edges of the 640 x 350 canvas (and of the 80 x 43 text grid): every field of every
+/// fixed-width command takes each of them while the others stay at a base value, plus seeded random combinations
+const EDGE: &[&str] = &["00", "01", "0Z", "27", "HR", "HS", "HT", "9P", "9Q", "9R", "ZZ", "A0"];
+
+fn edge_cases(cmds: &[Cmd], thorough: bool, seed: u64, out: &mut Vec<RCase>) {
+    let mut r = rng(seed, 515_151);
+    for cm in cmds {
+        if cm.kind != "fix" && cm.kind != "tail" || cm.w < 2 { continue; }
+        let nf = cm.w / 2;                       // fields are two digits wide with few exceptions: good enough for edge values
+        let mut combos: Vec<Vec<&str>> = vec![];
+        for base in ["00", "50"] {
+            for f in 0..nf {
+                for e in EDGE {
+                    let mut v = vec![base; nf];
+                    v[f] = e;
+                    combos.push(v);
+                }
+            }
+        }
+        for _ in 0..(if thorough { 300 } else { 30 }) {
+            combos.push((0..nf).map(|_| EDGE[r.gen_range(0..EDGE.len())]).collect());
+        }
+        for (k, v) in combos.iter().enumerate() {
+            let mut chars = cm.prefix();
+            chars.extend(s2c(&v.concat()));
+            if cm.w % 2 == 1 { chars.push('0' as u32); }
+            chars.extend(s2c(if cm.kind == "tail" { "txt|" } else { "|" }));
+            out.push(RCase { id: format!("e-{}-{}", cm.name(), k), chars, cls: vec![] });
+        }
+    }
+}
+
 fn tlc_cases(paths: &[Vec<u32>], thorough: bool, out: &mut Vec<RCase>) {
     for (k, p) in paths.iter().enumerate() {
         let ends: Vec<usize> = if thorough { vec![0, 1, 2, 3] } else { vec![k % 4] };
@@ -265,6 +297,16 @@ pub fn rip(a: &Args) {
     let shard = a.usize("shard", 0);
     let shards = a.usize("shards", 1).max(1);
     crate::term::set_mem_limit(a.u64("mem-mb", 2048));
+    if a.has("hex") {
+        // replay one stream given as hex bytes (reproducers): events to --out, last line to stderr
+        let h = a.str("hex", "");
+        let chars: Vec<u32> = (0..h.len() / 2).filter_map(|i| u32::from_str_radix(&h[2 * i..2 * i + 2], 16).ok()).collect();
+        let mut out = Out::create(&out_path);
+        run_case(&RCase { id: "hex".into(), chars, cls: vec![] }, &mut out);
+        out.flush();
+        if let Some(l) = std::fs::read_to_string(&out_path).unwrap_or_default().lines().last() { eprintln!("{l}"); }
+        return;
+    }
     let gen_path = a.str("gen", "gen/rip_cases.ndjson");
     let rows: Vec<Value> = std::fs::read_to_string(&gen_path).map(|t| t.lines().filter_map(|l| serde_json::from_str(l).ok()).collect()).unwrap_or_default();
     if rows.is_empty() {
@@ -286,6 +328,7 @@ pub fn rip(a: &Args) {
     tlc_cases(&paths, thorough, &mut all);
     let n_tlc = all.len();
     table_cases(&cmds, thorough, seed, &mut all);
+    edge_cases(&cmds, thorough, seed, &mut all);
     let n_table = all.len() - n_tlc;
     let n_rand = a.u64("random", if thorough { 40000 } else { 1500 });
     for k in 0..n_rand {
